@@ -714,6 +714,13 @@ def rule_r8_normalize(ctx: Ctx) -> None:
     ctx.check(not bad, fn.short, "%d argument shapes" % len(cases), "the result depends on the paths given - not on the kind of iterable, on duplicates or on str / Path spelling", fn.where(), bad[:4])
 
 
+def rule_r9_ambient(ctx: Ctx) -> None:
+    from . import ambient
+
+    ctx.rule("C10.R9", "the result depends on the arguments and the file system as they are when the call is made: no memoised function of the package reaches the working directory, the file system, the environment or the clock (an earlier call cannot change what a later one returns)", min_instances=1)
+    ambient.rule(ctx, "C10.R9", "a listing, an existence test or a resolved path kept from an earlier call answers for another state of the file system / another working directory: the same arguments would give different results depending on what was read before")
+
+
 def run(ctx: Ctx) -> None:
     ctx.attempt(rule_r1, ctx)
     ctx.attempt(rule_r2, ctx)
@@ -723,6 +730,7 @@ def run(ctx: Ctx) -> None:
     ctx.attempt(rule_r6, ctx)
     ctx.attempt(rule_r7_requested_files, ctx)
     ctx.attempt(rule_r8_normalize, ctx)
+    ctx.attempt(rule_r9_ambient, ctx)
     ctx.assume("dict iteration order is insertion order (language guarantee), so dicts filled in a deterministic order are deterministic")
     ctx.assume("which of several simultaneous directory faults is reported first may depend on set order; the rejection itself does not")
     ctx.undecided("read_files == read_namespace type equality; case-insensitive file systems; symlink semantics of the OS; tie order of colliding (same name+version) lookup definitions")
